@@ -18,6 +18,13 @@ HEADER = "From Dasp Require Import Signal.ConverterRun."
 CHECK = "check"
 
 FMT = {"f64": (0, 1), "f32": (1, 1), "i16": (2, 1), "u8": (3, 1), "i16x2": (2, 2)}
+# the generated-conversion formats: 100 + SampleFmt.sfmt_code; (code, channels, bits, signed)
+GEN_FMT = {"g_i8": (100, 1, 8, True), "g_i16": (101, 1, 16, True), "g_i24": (102, 1, 24, True), "g_i32": (103, 1, 32, True),
+           "g_i48": (104, 1, 48, True), "g_i64": (105, 1, 64, True), "g_u8": (106, 1, 8, False), "g_u16": (107, 1, 16, False),
+           "g_u24": (108, 1, 24, False), "g_u32": (109, 1, 32, False), "g_u48": (110, 1, 48, False), "g_u64": (111, 1, 64, False),
+           "g_f32": (112, 1, 0, True), "g_f64": (113, 1, 0, True), "g_u24x2": (108, 2, 24, False), "g_u48x2": (110, 2, 48, False)}
+for _k, _v in GEN_FMT.items():
+    FMT[_k] = (_v[0], _v[1])
 
 
 def d2b(x):
@@ -40,6 +47,8 @@ def op_coq(o):
         return f"ZSetPlay {F.zlit(o[1])}"
     if k == "h":
         return f"ZSetHz {F.zlit(o[1])} {F.zlit(o[2])}"
+    if k == "u":
+        return f"ZUntil {F.zlit(o[1])}"
     return f"ZSetSample {F.zlit(o[1])}"
 
 
@@ -50,15 +59,28 @@ def build(item, ops=None):
     fmt, nch = FMT[it["fmt"]]
     flat = [s for fr in it["frames"] for s in fr]
     c = it["ctor"]
-    it["line"] = f"{fmt} {it['itp']} {nch} ; {' '.join(map(str, flat))} ; {' '.join(map(str, c))} ; " + " , ".join(op_txt(o) for o in it["ops"])
+    own, tail = it.get("own", 0), it.get("tail", 0)
+    it["line"] = f"{fmt} {it['itp']} {nch} {own} {tail} ; {' '.join(map(str, flat))} ; {' '.join(map(str, c))} ; " + " , ".join(op_txt(o) for o in it["ops"])
     ck = {"hz": lambda: f"CHz {F.zlit(c[1])} {F.zlit(c[2])}", "scale": lambda: f"CScale {F.zlit(c[1])}",
           "sample": lambda: f"CSample {F.zlit(c[1])}", "mul": lambda: f"CMul {F.zlist(c[1:])}"}[c[0]]()
     it["coq"] = (f"ZCase {fmt} {it['itp']} {nch} {F.zlistlist(it['frames'])} ({ck}) "
-                 "[" + "; ".join(op_coq(o) for o in it["ops"]) + "]")
+                 "[" + "; ".join(op_coq(o) for o in it["ops"]) + f"] {tail}")
     return it
 
 
 def rand_sample(r, fmt):
+    if fmt in GEN_FMT:
+        code, _, bits, sg = GEN_FMT[fmt]
+        if bits == 0:
+            return rand_sample(r, "f32" if code == 112 else "f64")
+        lo, hi = (-(1 << (bits - 1)), (1 << (bits - 1)) - 1) if sg else (0, (1 << bits) - 1)
+        eq = 0 if sg else 1 << (bits - 1)
+        k = r.below(8)
+        if k == 0:
+            return r.choice([lo, lo + 1, hi - 1, hi, eq, eq - 1 if eq - 1 >= lo else eq, eq + 1])
+        if k == 1:
+            return max(lo, min(hi, eq + r.range(-5, 5)))
+        return r.range(lo, hi)
     if fmt in ("i16", "i16x2"):
         k = r.below(10)
         if k == 0:
@@ -355,6 +377,66 @@ def recip_feature(item):
     return False
 
 
+# ---------------------------------------------------------------------------
+# converters over a BORROWED source (`source.by_ref()` / `&mut source`): same state as an owning
+# converter; is_exhausted before every output, the frame count of until_exhausted() (capped), and the
+# source used again afterwards exactly where the converter left it.  Also until_exhausted on owners.
+
+
+def gen_borrow_case(r, tier, k):
+    itp = k % 2
+    own = [1, 2, 1, 2, 0][(k // 2) % 5]
+    fmt = ["f64", "i16", "g_u24", "u8", "g_i32", "f32", "i16x2", "g_u48"][(k // 10) % 8]
+    L = r.range(0, 12)
+    nchan = FMT[fmt][1]
+    frames = [[rand_sample(r, fmt) for _ in range(nchan)] for _ in range(L)]
+    mul = (k // 3) % 3 == 0
+    cap = r.choice([40, 60])
+    if mul:
+        n = r.range(2, 6)
+        clen = n + r.choice([0, 3, 40, 80])                  # the control signal may end first
+        ctl = [r.choice([0.5, 0.75, 1.0, 1.5, 2.5, 0.375]) for _ in range(clen)]
+        ctor = ["mul"] + [d2b(x) for x in ctl]
+        ratio = 0.9
+    else:
+        ratio = r.choice([0.5, 0.75, 1.0, 1.5, 2.5, 1.0 / 3.0, 0.3, 7.0001])
+        ctor = r.choice([["scale", d2b(ratio)], ["hz", d2b(ratio * 48000.0), d2b(48000.0)], ["scale", d2b(ratio)]])
+        if ctor[0] == "hz":
+            ratio = ratio * 48000.0 / 48000.0
+        n = r.range(1, 5)
+    style = k % 4
+    if style == 0:      # outputs one by one past exhaustion
+        n_all = min(40, int((L + 3) / min(ratio, 2.5)) + 4)
+        ops = [["n"]] * n_all
+    elif style == 1:    # a few outputs, then until_exhausted as the last operation (consumes the converter)
+        ops = [["n"]] * n + [["u", cap]]
+    elif style == 2:    # until_exhausted on by_ref() of the converter, then more outputs
+        ops = [["n"]] * n + [["u", cap]] + [["n"]] * 2
+    else:               # until_exhausted straight away
+        ops = [["u", cap]]
+    return build(dict(fmt=fmt, itp=itp, frames=frames, ctor=ctor, ops=ops, kind="borrow_mul" if mul else "borrow_const", ratio=ratio,
+                      varying=mul, own=own, tail=(r.range(1, 3) if own else 0)))
+
+
+# every sample format (generated conversions), floor and linear, running past the end of the source so
+# that the equilibrium frames fed to the interpolator are visible (floor: output = equilibrium; linear:
+# blends toward it)
+def gen_fmt_case(r, tier, k):
+    names = list(GEN_FMT)
+    fmt = names[k % len(names)]
+    itp = (k // len(names)) % 2
+    L = r.range(0, 5)
+    nchan = FMT[fmt][1]
+    frames = [[rand_sample(r, fmt) for _ in range(nchan)] for _ in range(L)]
+    ratio = r.choice([0.5, 0.75, 1.5, 1.0 / 3.0, 0.25, 1.0])
+    ctor = r.choice([["scale", d2b(ratio)], ["mul"] + [d2b(ratio)] * 40])
+    n = min(24, int((L + 3) / ratio) + 3)
+    ops = [["n"]] * n
+    own = r.choice([0, 0, 1, 2])
+    return build(dict(fmt=fmt, itp=itp, frames=frames, ctor=ctor, ops=ops, kind="all_formats", ratio=ratio, varying=False,
+                      own=own, tail=(2 if own else 0)))
+
+
 def gen_malformed(r):
     """constructor arguments outside the domain (scale > 0 asserted) and harmless odd set_* values"""
     out = []
@@ -383,6 +465,10 @@ def gen_cases(rng, tier):
     for k in range(160 if tier == "quick" else 2000):
         items.append(gen_unit_case(rng.fork(f"unit{k}"), tier, k))
     items += gen_hz_cases(rng.fork("hzpairs"), tier)
+    for k in range(80 if tier == "quick" else 1200):
+        items.append(gen_borrow_case(rng.fork(f"borrow{k}"), tier, k))
+    for k in range(96 if tier == "quick" else 1280):
+        items.append(gen_fmt_case(rng.fork(f"fmt{k}"), tier, k))
     items += gen_malformed(rng.fork("malformed"))
     return items
 
@@ -400,6 +486,8 @@ def nontrivial(item, obs_line):
         t = ob.split()
         if len(t) > 1 and t[0] in ("1", "2") and t[1] == "1":
             return True
+        if len(t) > 1 and t[0] == "4" and any(o[0] == "u" and int(t[1]) < o[1] for o in item["ops"]):
+            return True          # until_exhausted() ended by itself
     return False
 
 
@@ -413,11 +501,17 @@ def load_corpus():
     return items
 
 
-CASE_KEYS = ("fmt", "itp", "frames", "ctor", "ops", "kind", "ratio", "varying")   # hz_pair is informative only
+CASE_KEYS = ("fmt", "itp", "frames", "ctor", "ops", "kind", "ratio", "varying", "own", "tail")   # hz_pair is informative only
 
 
 def main(rep, tier, seed):
     rng = F.Rng(seed)
+    # the sample conversions of the all-formats model are the GENERATED ones: regenerate them from the
+    # current /repo first (same translators as C01/C03), so the model follows conv.rs as it is now
+    from props import c03 as _c03
+    terr, _changed = _c03.regenerate()
+    if terr:
+        rep.violation("translator", {"kind": "the conversion model cannot be regenerated from dasp_sample/src/conv.rs", "error": terr}, no_input=True)
     info = F.standard_proof_phase(rep, PROP, allowed_axioms=F.AX_REALS)
     # K3: the class is refuted on the model (props/C08.v: c08_k3_refuted); it is never run on the
     # real code (the loop does not terminate).  Printed only when the witness theorem compiled.
@@ -480,6 +574,13 @@ def main(rep, tier, seed):
             uf["accumulator_exactly_integer_cases"] += 1
             uf["accumulator_exactly_integer_outputs"] += e
     hist["unit_ratio_at_fractional_position"] = uf
+    own_names = {0: "owned", 1: "by_ref", 2: "mut_ref"}
+    hist["source_ownership"] = {}
+    for it in items:
+        k = own_names[it.get("own", 0)] + ("/mul_hz" if it["ctor"][0] == "mul" else "/converter")
+        hist["source_ownership"][k] = hist["source_ownership"].get(k, 0) + 1
+    hist["until_exhausted_observations"] = sum(o.count(";4 ") for o in outl) if not errors else 0
+    hist["source_frames_pulled_after_converter_dropped"] = sum(o.count(";5 ") for o in outl) if not errors else 0
     # feature: from_hz_to_hz / set_hz_to_hz whose quotient differs from the reciprocal of its reciprocal
     rf = [it for it in items if recip_feature(it)]
     hist["hz_quotient_not_reciprocal_of_reciprocal"] = {
@@ -497,7 +598,7 @@ def main(rep, tier, seed):
         _, model = F.coq_eval("c08", HEADER, f"run_case ({small['coq']})")
         rep.violation(f"case{idx}", {
             "kind": "model/implementation disagreement: the real converter does not position/consume as the proved model",
-            "case": {k: small[k] for k in CASE_KEYS}, "harness_line": small["line"],
+            "case": {k: small[k] for k in CASE_KEYS if k in small}, "harness_line": small["line"],
             "implementation_observations": out, "model_observations": model[-3000:],
             "original_case_index": idx, "replay": "./check.py C08 --replay <this file>"})
     samples = [items[i]["line"][:400] for i in (0, len(items) // 2, len(items) - 1)]
@@ -517,7 +618,7 @@ def finish(rep, info, n, nontriv, dist, samples, bad=(), fb=None):
             "modelled, not verified: Frame::zip_map on arrays as per-channel list map, Signal/Iterator trait dispatch, the Counted/CountIter instrumentation in the harness"],
         "theorems": th, "axioms_reported": info.get("axioms", []),
         "evaluations": n, "distinct_nontrivial": nontriv,
-        "rule": "one evaluation = one converter run (priming, construction, up to 80 outputs, every observation compared); non-trivial = the ratio is not 1 and the run reaches exhaustion (some output observed with is_exhausted = 1), or the ratio varies per output (mul_hz control signal / set_* calls); extra feature counted in input_distribution.unit_ratio_at_fractional_position: ratio exactly 1.0 (mul_hz control value, set_playback_hz_scale(1.0), set_hz_to_hz(a, a), set_sample_hz_scale(1.0)) at an output where the accumulator's fraction is not 0, and accumulators landing exactly on / just below integers; input_distribution.hz_quotient_not_reciprocal_of_reciprocal: from_hz_to_hz / set_hz_to_hz cases over unusual and non-integer rate pairs whose quotient a/b differs in binary64 from 1/(b/a) (the accumulator after the first output is the ratio in effect, compared bit-for-bit)",
+        "rule": "one evaluation = one converter run (priming, construction, up to 80 outputs, every observation compared); non-trivial = the ratio is not 1 and the run reaches exhaustion (some output observed with is_exhausted = 1), or the ratio varies per output (mul_hz control signal / set_* calls); extra feature counted in input_distribution.unit_ratio_at_fractional_position: ratio exactly 1.0 (mul_hz control value, set_playback_hz_scale(1.0), set_hz_to_hz(a, a), set_sample_hz_scale(1.0)) at an output where the accumulator's fraction is not 0, and accumulators landing exactly on / just below integers; input_distribution.source_ownership: converters built over source.by_ref() / &mut source (constant and mul_hz ratios, floor and linear) with is_exhausted before each output, until_exhausted().take(cap).count() and the source pulled again after the converter is dropped; format histogram: all 14 sample formats + stereo through the generated conversions, run past the end of the source (equilibrium = the specified value, not the source table's); input_distribution.hz_quotient_not_reciprocal_of_reciprocal: from_hz_to_hz / set_hz_to_hz cases over unusual and non-integer rate pairs whose quotient a/b differs in binary64 from 1/(b/a) (the accumulator after the first output is the ratio in effect, compared bit-for-bit)",
         "samples": samples, "input_distribution": dist, "disagreements": len(bad),
         "known_finding_class": "K3: accumulator >= 2^53 (ratio >= 2^53 or non-finite): excluded from generation, never executed on the real code; refuted on the binary64 model (c08_k3_refuted)",
         "explanation": "theorems: real-arithmetic position/consumption/exhaustion/count statements for all positive ratio sequences, sources and both interpolators + binary64 exactness of the pull loop below 2^53; tie: the same Gallina model over Flocq binary64 evaluated by coqc on the cases the real Converter/MulHz run, all observations (frames, pull counters, exhaustion flags, accumulator bits) compared exactly",
